@@ -70,6 +70,13 @@ def _run_bounded(task):
         old = signal.signal(signal.SIGALRM, _expired)
         # repeating: code under test that swallows the first expiry (a bare except in a retry loop) is interrupted again
         signal.setitimer(signal.ITIMER_REAL, limit, 5)
+        # Twisted's default log observer writes every error the code under test logs (callbacks that raise on purpose) to stderr:
+        # hundreds of kilobytes of tracebacks that decide nothing; the scenarios observe outcomes themselves
+        try:
+            from twisted.logger import globalLogBeginner as _glb
+            _glb.beginLoggingTo([lambda event: None], redirectStandardIO=False, discardBuffer=True)
+        except Exception:
+            pass
         try:
             out = b['run'](tier, seed)
         except WatchdogExpired as e:
